@@ -1,6 +1,6 @@
 //! BOUNDED stand-in for AstResolver::find_matching_interface_name (assumed in unit U8: `.filter` over `rfind`/`find`
 //! on str is outside Verus's dialect) and for the three places that use it: inferred `new` arguments, named `new`
-//! arguments with an identifier name, and access expressions.  For every subset (up to a size) of a pool of extern
+//! arguments with an identifier name, and access expressions (`i.id`; for `i["id"]` no inference is performed).  For every subset (up to a size) of a pool of extern
 //! names - plain names, interface paths with and without versions, ambiguous and unambiguous last segments - the REAL
 //! parser + resolver are run and the chosen argument / export name is read back from the composition graph and
 //! compared with a reference evaluator written from LANGUAGE.md:
@@ -140,6 +140,23 @@ fn main() {
                     if !set.contains(&want) { t.agree += 1; }
                     else { report(&mut t, 2, &set, id, &src, &format!("<rejected: {e}>"), want); }
                 }
+            }
+            // ---- site 3: `i["id"]` - "no inference is performed": the string is the export name itself
+            let src = format!("package test:doc;\nlet i = new t:q {{}};\nlet a = i[\"{id}\"];\nexport a as out;\n");
+            let doc = Document::parse(&src).unwrap();
+            let mut packages: IndexMap<BorrowedPackageKey, Vec<u8>> = IndexMap::new();
+            packages.insert(BorrowedPackageKey::from_name_and_version("t:q", None), exp.clone());
+            t.cases += 1;
+            match safe_resolve(&doc, packages, &src, &set) {
+                Ok(res) => {
+                    let g = res.graph();
+                    let out = g.get_export("out").expect("export");
+                    match g.get_alias_source(out) {
+                        Some((_, name)) if name == id && set.contains(&id) => t.agree += 1,
+                        other => { t.violations += 1; if !panics_only { println!("C04-BOUNDED VIOLATION: externs {set:?}: `i[\"{id}\"]` (no inference is performed for a string) was bound to {:?}; document:\n{src}", other.map(|(_, n)| n.to_string())); } }
+                    }
+                }
+                Err(e) => { if !set.contains(&id) { t.agree += 1; } else { t.violations += 1; if !panics_only { println!("C04-BOUNDED VIOLATION: externs {set:?}: `i[\"{id}\"]` names an existing export but is rejected ({e}); document:\n{src}"); } } }
             }
         }
     }
